@@ -25,7 +25,7 @@ mod __verif_c11cut {
         let other: u64 = kani::any(); // bytes of the rest of the table (row groups not looked at here)
         kani::assume(r0 >= 1 && r0 <= max_rows);
         kani::assume(b0 <= max_bytes && other <= max_other);
-        let mut inv = Vec::with_capacity(2);
+        let mut inv = VecShim::with_capacity(2);
         inv.push(rg(0, 1, 0));
         inv.push(rg(7, r0, b0));
         let (target, splits, inv) = pass2(&TOK, inv, b0 + other, nodes);
@@ -107,4 +107,26 @@ mod __verif_c11cut {
     fn cut_covers_every_row_once_real_sizes_1_node() {
         one_group(1, 3, 1u64 << 40, 1u64 << 46);
     }
+
+    // @harness tiers=experimental timeout=900
+    // @encodes distributed::splits::enumerate_parquet (pass-2 block, verbatim), distributed::splits::target_split_bytes
+    // @bounds one row group of a small table on 5 nodes: rows 1..=4, bytes 0..=63, rest of the table 0..=63 bytes (four pieces: the smallest shape in which rounding the per-piece byte share UP over-attributes)
+    // @oracle as cut_covers_every_row_once_small_table_3_nodes
+    #[kani::proof]
+    #[kani::unwind(6)]
+    fn cut_covers_every_row_once_four_rows_5_nodes() {
+        one_group(5, 4, 63, 63);
+    }
+
+    // @harness tiers=experimental timeout=900
+    // @encodes distributed::splits::enumerate_parquet (pass-2 block, verbatim), distributed::splits::target_split_bytes
+    // @bounds one row group of a small table on 5 nodes: rows 1..=5, bytes 0..=31, rest of the table 0..=31 bytes (five rows over four pieces: the smallest shape in which a fixed-stride cut leaves the last piece empty)
+    // @oracle as cut_covers_every_row_once_small_table_3_nodes
+    #[kani::proof]
+    #[kani::unwind(7)]
+    fn cut_covers_every_row_once_five_rows_5_nodes() {
+        one_group(5, 5, 31, 31);
+    }
+
+    // @playback
 }
